@@ -24,9 +24,13 @@ func main() {
 		os.Exit(64)
 	}
 	switch os.Args[1] {
-	case "firstcall": // one library call as the first use of the library in this process (C11)
-		i, _ := strconv.Atoi(os.Args[2])
-		fmt.Println(props.FirstCall(i))
+	case "fresh": // one registered case as the first use of the library in this process
+		i, _ := strconv.Atoi(os.Args[3])
+		rep := 0
+		if len(os.Args) > 4 {
+			rep, _ = strconv.Atoi(os.Args[4])
+		}
+		fmt.Println(props.Fresh(os.Args[2], i, rep))
 	case "list":
 		for id := range core.Props {
 			fmt.Println(id)
